@@ -168,6 +168,7 @@ func Fill(p *core.Prog, r *core.Report, anchors []Anchor) {
 			r.Und("FILL", core.Short(a.Pkg)+"."+a.Name+"|anchor", "-", "anchor-unresolved: function not found")
 		}
 	}
+	r.Rule("NO-SHORTCUT", "every return of a FILL anchor hands back a value computed from the slice it filled: an early return of the receiver or of an argument skips the part-wise transformation for some inputs", 0)
 	for _, pkg := range []string{core.PkgGts, core.PkgSeqio} {
 		info := p.Info(pkg)
 		for _, fd := range p.FuncDecls(pkg) {
@@ -178,6 +179,9 @@ func Fill(p *core.Prog, r *core.Report, anchors []Anchor) {
 			anchor := isAnchor[pkg+"."+name]
 			fn := core.Short(pkg) + "." + name
 			n := 0
+			if anchor {
+				noShortcut(p, r, info, fd, fn)
+			}
 			ast.Inspect(fd.Body, func(m ast.Node) bool {
 				as, ok := m.(*ast.AssignStmt)
 				if !ok || len(as.Lhs) != 1 || len(as.Rhs) != 1 {
@@ -439,4 +443,65 @@ func twoPointer(info *types.Info, s *ast.ForStmt, x types.Object, isLen func(ast
 		return core.Violation, "two-pointer loop runs while l < r: for every odd length the middle index is never stored and stays nil, so that part of the location is lost"
 	}
 	return core.Undecided, "unrecognised two-pointer condition"
+}
+
+// noShortcut: every return of fd uses a variable derived from a slice made in fd.
+func noShortcut(p *core.Prog, r *core.Report, info *types.Info, fd *ast.FuncDecl, fn string) {
+	asg := core.Assigns(info, fd.Body)
+	derived := map[types.Object]bool{}
+	for o, as := range asg {
+		for _, a := range as {
+			if a.RHS == nil {
+				continue
+			}
+			if mk, ok := ast.Unparen(a.RHS).(*ast.CallExpr); ok && core.IsBuiltin(info, mk, "make") {
+				derived[o] = true
+			}
+		}
+	}
+	if len(derived) == 0 {
+		return
+	}
+	for changed := true; changed; {
+		changed = false
+		for o, as := range asg {
+			if derived[o] {
+				continue
+			}
+			for _, a := range as {
+				var e ast.Node = a.RHS
+				if a.RHS == nil && a.Call != nil {
+					e = a.Call
+				}
+				if e == nil {
+					continue
+				}
+				for d := range derived {
+					if core.UsesObj(info, e, d) {
+						derived[o] = true
+						changed = true
+					}
+				}
+			}
+		}
+	}
+	for k, ret := range core.Returns(fd.Body) {
+		if len(ret.Results) == 0 {
+			continue
+		}
+		key := fmt.Sprintf("%s|return#%d", fn, k+1)
+		uses := false
+		for _, e := range ret.Results {
+			for d := range derived {
+				if core.UsesObj(info, e, d) {
+					uses = true
+				}
+			}
+		}
+		if uses {
+			r.Ok("NO-SHORTCUT", key, p.Pos(ret.Pos()), "the result is computed from the filled slice")
+		} else {
+			r.Bad("NO-SHORTCUT", key, p.Pos(ret.Pos()), "this return hands back `"+types.ExprString(ret.Results[0])+"` without going through the slice the function fills: for the inputs that take this path the parts are not transformed")
+		}
+	}
 }
